@@ -146,7 +146,89 @@ func cmdC01(r *RNG, n int, e *Emitter, args []string) {
 			fr = []clip.FillRule{clip.EvenOdd, clip.NonZero, clip.NonZero, clip.Positive}[r.Intn(4)]
 			info = GenInfo{Grid: G, Kinds: []string{"dense"}}
 		}
+		if i%10 == 3 {
+			// tie-heavy: 2-6 small polygons on a coarse lattice multiplied by a scale, so that vertices are shared,
+			// edges end in common vertices, crossings fall on lattice points and tops are exactly collinear, while the
+			// features stay far larger than the 2-unit band
+			s, c = genLatticeScaled(r)
+			info = GenInfo{Grid: 0, Kinds: []string{"lattice-scaled"}}
+		}
+		if i%10 == 5 {
+			// redundant collinear vertices on the edges (runs of collinear horizontal / vertical / sloped pieces)
+			s, c = insertCollinear(r, s), insertCollinear(r, c)
+			info.Kinds = append(info.Kinds, "collinear-runs")
+		}
 		emitC01(e, fmt.Sprint(i), s, c, ct, fr, r.Intn(3), info)
+	}
+}
+
+func genLatticeScaled(r *RNG) (clip.Paths64, clip.Paths64) {
+	G := []int64{4, 6, 8, 12, 30}[r.Intn(5)]
+	S := []int64{10, 25, 50, 100}[r.Intn(4)]
+	np := 2 + r.Intn(5)
+	var s, c clip.Paths64
+	for k := 0; k < np; k++ {
+		p := make(clip.Path64, 3+r.Intn(6))
+		for j := range p {
+			p[j] = clip.Point64{X: r.Range(0, G) * S, Y: r.Range(0, G) * S}
+		}
+		if k == 0 || r.Intn(3) != 0 {
+			s = append(s, p)
+		} else {
+			c = append(c, p)
+		}
+	}
+	if c == nil {
+		c = clip.Paths64{}
+	}
+	return s, c
+}
+
+// insertCollinear puts 1-3 extra vertices exactly on some edges (integer points a + k(b-a)/g for the gcd g)
+func insertCollinear(r *RNG, ps clip.Paths64) clip.Paths64 {
+	if ps == nil {
+		return nil
+	}
+	out := make(clip.Paths64, 0, len(ps))
+	for _, p := range ps {
+		var q clip.Path64
+		for i, a := range p {
+			b := p[(i+1)%len(p)]
+			q = append(q, a)
+			g := gcd64(abs64(b.X-a.X), abs64(b.Y-a.Y))
+			if g < 2 || r.Intn(2) == 0 {
+				continue
+			}
+			k := 1 + r.Intn(3)
+			var ts []int64
+			for j := 0; j < k; j++ {
+				ts = append(ts, r.Range(1, g-1))
+			}
+			sortInt64(ts)
+			for j, t := range ts {
+				if j > 0 && t == ts[j-1] {
+					continue
+				}
+				q = append(q, clip.Point64{X: a.X + (b.X-a.X)/g*t, Y: a.Y + (b.Y-a.Y)/g*t})
+			}
+		}
+		out = append(out, q)
+	}
+	return out
+}
+
+func gcd64(a, b int64) int64 {
+	for b != 0 {
+		a, b = b, a%b
+	}
+	return a
+}
+
+func sortInt64(v []int64) {
+	for i := 1; i < len(v); i++ {
+		for j := i; j > 0 && v[j] < v[j-1]; j-- {
+			v[j], v[j-1] = v[j-1], v[j]
+		}
 	}
 }
 
